@@ -164,8 +164,10 @@ func (g *InterProceduralFlowGraph) BuildGraph() {
 
 	// Writes the summaries to file if the option is set
 	if summariesFile != nil {
-		// Read-only operation on summaries
-		go func() {
+		// Read-only operation on summaries. The report is written before the summaries are linked and before the
+		// deferred Close of the file: a detached goroutine here races with STEP 3 / on-demand summarization and can
+		// be cut short by the Close.
+		func() {
 			verifGate("summaries-writer-start")
 			for _, summary := range g.Summaries {
 				if summary == nil {
